@@ -283,3 +283,52 @@ def const_eval(e, depth=0):
                     return None
         return out
     return None
+
+
+# ---------------------------------------------------------------------------
+# A5 — switch tables
+
+def arm_result(an, body, start, dest_local=0, limit=12):
+    """Follow the straight-line chain from block `start`; describe what is assigned to `dest_local`.
+    -> ("variant", adt, name, [op exprs]) | ("const", v) | ("call", Callee, [arg exprs], block) | ("expr", e) | None"""
+    b = start
+    seen = 0
+    while b is not None and seen < limit:
+        seen += 1
+        blk = body.blocks[b]
+        for s in blk["stmts"]:
+            if s["k"] == "assign" and s["place"]["l"] == dest_local and not s["place"].get("p"):
+                rv = s["rv"]
+                if rv["k"] == "aggregate" and rv["agg"] == "adt":
+                    return ("variant", rv["adt"], rv["variant"], [an.op(body, o) for o in rv["ops"]], b)
+                if rv["k"] == "use" and rv["op"]["k"] == "const" and "val" in rv["op"]:
+                    return ("const", rv["op"]["val"], b)
+                return ("expr", an.simp(an.slicer(body).rvalue(rv, b)), b)
+        t = blk["term"]
+        if t["k"] == "call" and t["dest"]["l"] == dest_local and not t["dest"].get("p"):
+            f = t["func"]
+            c = Callee(f["fn"]) if f.get("k") == "const" and "fn" in f else None
+            return ("call", c, [an.op(body, a) for a in t["args"]], b)
+        ss = body.succs(b)
+        if len(ss) != 1:
+            return None
+        b = ss[0]
+    return None
+
+
+def switch_table(an, body, scrut_pred, dest_local=0):
+    """First switch (in block order) whose simplified operand satisfies scrut_pred.
+    -> (block, {value: arm_result}, otherwise arm_result, operand expr) or None"""
+    for b in sorted(body.live_blocks()):
+        t = body.term(b)
+        if t["k"] != "switch":
+            continue
+        e = an.op(body, t["op"])
+        if not scrut_pred(peel(e)):
+            continue
+        table = {}
+        for v, tb in t["targets"]:
+            table[v] = arm_result(an, body, tb, dest_local)
+        oth = arm_result(an, body, t["otherwise"], dest_local)
+        return (b, table, oth, e)
+    return None
